@@ -153,7 +153,10 @@ fn mn_case(out: &mut Out, seed: u64, probs: &[f32]) {
     }
     out.bucket("multinomial_loop");
     if ans == "none" {
-        out.bucket("multinomial_loop_fell_through");
+        out.bucket("multinomial_loop_no_positive_candidate");
+    }
+    if !cums.is_empty() && !(target < *cums.last().unwrap()) {
+        out.bucket("multinomial_loop_walk_off_the_end");
     }
     if probs.first() == Some(&0.0) {
         out.bucket("multinomial_leading_zero_probability");
@@ -194,7 +197,16 @@ fn ms_sequence(out: &mut Out, seed: u64, inputs: &[(Vec<f32>, Option<Vec<u32>>)]
         );
         if nan {
             req = format!("# {req} logits={:?}", scores);
+        } else {
+            req += &format!(
+                " l={}",
+                hcommon::join(scores.iter().map(|x| if *x == NEG_INF { "ninf".to_string() } else { key(*x).to_string() }), ",")
+            );
         }
+        // The softmax facts the theorems assume, evaluated here on the real vecmath output
+        // (independently of the model driver, which evaluates them on the exact values).
+        let facts = if nan { None } else { Some(softmax_facts(scores, &probs)) };
+        let walk = if !nan && target < *cums.last().unwrap() { "hit" } else { "end" };
         let mut fail = None;
         let ans = match res {
             Ok(id) => {
@@ -215,7 +227,7 @@ fn ms_sequence(out: &mut Out, seed: u64, inputs: &[(Vec<f32>, Option<Vec<u32>>)]
                         }
                     }
                 }
-                format!("id={id}")
+                if nan { format!("id={id}") } else { format!("id={id} walk={walk} asm=ok") }
             }
             Err(m) => {
                 produced.push(None);
@@ -225,6 +237,21 @@ fn ms_sequence(out: &mut Out, seed: u64, inputs: &[(Vec<f32>, Option<Vec<u32>>)]
         };
         out.bucket("multinomial_sample");
         out.bucket(tag);
+        match &facts {
+            Some(Ok(())) => out.bucket("softmax_facts_hold"),
+            Some(Err(which)) => {
+                out.bucket(&format!("ASSUMPTION_VIOLATED_softmax_{which}"));
+                out.note(&format!("softmax fact `{which}` violated by the vecmath output for logits {:?}", &scores[..scores.len().min(12)]));
+            }
+            None => {}
+        }
+        if !nan && walk == "end" {
+            out.bucket("multinomial_walk_off_the_end");
+            let last_pos = probs.iter().rposition(|p| *p > 0.0);
+            if last_pos.map(|p| p + 1 < probs.len()).unwrap_or(false) {
+                out.bucket("multinomial_walk_off_the_end_with_zero_probability_tail");
+            }
+        }
         if nan {
             out.bucket("multinomial_nan_probabilities");
         }
@@ -276,6 +303,26 @@ fn ms_sequence(out: &mut Out, seed: u64, inputs: &[(Vec<f32>, Option<Vec<u32>>)]
         bad.as_deref(),
         inputs.len() >= 2,
     );
+}
+
+/// non-negative / −inf ↦ 0 / sums to 1 within 2^-16 / monotone in the logit
+fn softmax_facts(scores: &[f32], probs: &[f32]) -> Result<(), &'static str> {
+    if probs.iter().any(|p| *p < 0.0) {
+        return Err("negative");
+    }
+    if scores.iter().zip(probs).any(|(s, p)| *s == NEG_INF && *p != 0.0) {
+        return Err("excluded-positive");
+    }
+    let total: f64 = probs.iter().map(|p| *p as f64).sum();
+    if (total - 1.0).abs() > 1.0 / 65536.0 {
+        return Err("sum");
+    }
+    let mut v: Vec<(f32, f32)> = scores.iter().copied().zip(probs.iter().copied()).filter(|(s, _)| *s != NEG_INF).collect();
+    v.sort_by(|a, b| a.0.partial_cmp(&b.0).unwrap().then(a.1.partial_cmp(&b.1).unwrap()));
+    if v.windows(2).any(|w| w[0].1 > w[1].1) {
+        return Err("not-monotone");
+    }
+    Ok(())
 }
 
 fn distinct_ids(rng: &mut Rng, n: usize) -> Vec<u32> {
@@ -417,6 +464,77 @@ fn run(args: &Args) {
     }
 
     // ---- D. seed searches for the two regions the proof of the legacy loop excludes
+    // ---- E. off-the-end walks: "scripted" draws just below 1 (the seeds with the highest first
+    //         draw among a block of consecutive seeds) against logit vectors whose softmax output
+    //         sums, in f32, to less than 1; −inf logits at the front, in the middle and at the tail
+    let block: u64 = if thorough { 400_000_000 } else { 40_000_000 };
+    let estart = rng.next_u64();
+    let mut high: Vec<(f32, u64)> = vec![];
+    let mut floor = 1.0f32 - 1.0 / 65536.0;
+    for i in 0..block {
+        let sd = estart.wrapping_add(i);
+        let d = fastrand::Rng::with_seed(sd).f32();
+        if d >= floor {
+            high.push((d, sd));
+            if high.len() > 4096 {
+                high.sort_by(|a, b| b.0.partial_cmp(&a.0).unwrap());
+                high.truncate(256);
+                floor = high.last().unwrap().0;
+            }
+        }
+    }
+    high.sort_by(|a, b| b.0.partial_cmp(&a.0).unwrap());
+    high.truncate(256);
+    out.note(&format!(
+        "family E: {} high-draw seeds from a block of {block}; highest first draw {:?}, lowest kept {:?}",
+        high.len(),
+        high.first().map(|h| h.0),
+        high.last().map(|h| h.0)
+    ));
+    let want_e = if thorough { 20_000 } else { 2_000 };
+    let mut got_e = 0;
+    let mut tried = 0u64;
+    while got_e < want_e && tried < 4_000_000 && !high.is_empty() {
+        tried += 1;
+        let cap = if rng.chance(1, 4) { 120 } else { 24 };
+        let n = 2 + rng.usize_below(cap);
+        let mut v: Vec<f32> = (0..n).map(|_| rng.range_i64(-12, 12) as f32 * 0.25).collect();
+        match rng.below(4) {
+            0 => v[0] = NEG_INF,
+            1 => {
+                let k = 1 + rng.usize_below(n.min(4));
+                for x in v[n - k.min(n - 1)..].iter_mut() {
+                    *x = NEG_INF;
+                }
+            }
+            2 => {
+                for x in v.iter_mut() {
+                    if rng.chance(1, 4) {
+                        *x = NEG_INF;
+                    }
+                }
+            }
+            _ => {}
+        }
+        if v.iter().all(|x| *x == NEG_INF) {
+            v[n / 2] = 0.0;
+        }
+        let probs = softmax_probs(&v);
+        let total = *running_sums(&probs).last().unwrap();
+        if !(total < 1.0) {
+            continue;
+        }
+        // a seed whose draw lies in the gap [total, 1)
+        let cands: Vec<&(f32, u64)> = high.iter().filter(|h| h.0 >= total).collect();
+        if cands.is_empty() {
+            continue;
+        }
+        let (_, sd) = **rng.pick(&cands);
+        let ids = if rng.chance(1, 2) { Some(distinct_ids(&mut rng, n)) } else { None };
+        ms_sequence(&mut out, sd, &[(v, ids)], "multinomial_scripted_draw_in_rounding_gap");
+        got_e += 1;
+    }
+    out.note(&format!("family E: {got_e} off-the-end cases from {tried} candidate logit vectors"));
     // D1-directed: WyRand (fastrand) outputs 0 when `seed + 0x2d358dccaa6c78a5` is 0 or equals the
     // second WyRand constant, so these two seeds make the first `rng.f32()` exactly 0.0 with every
     // fastrand 2.x (23-bit draws in 2.3.0 as well as 63-bit draws in 2.5.0).
